@@ -69,6 +69,19 @@ func (c *Ctx) constLens(body ast.Node, v *types.Var) (lens map[int64]bool, ok bo
 						if isBuiltinCall(info, z, "append") {
 							appended = true
 						}
+						// binary.BigEndian.AppendUintN(make([]byte, 0, C), v): N/8 bytes
+						if sel, isSel := z.Fun.(*ast.SelectorExpr); isSel && strings.HasPrefix(sel.Sel.Name, "AppendUint") && len(z.Args) == 2 {
+							if mk, isMk := ast.Unparen(z.Args[0]).(*ast.CallExpr); isMk && isBuiltinCall(info, mk, "make") && len(mk.Args) == 3 {
+								if tv, has := info.Types[mk.Args[1]]; has && tv.Value != nil && tv.Value.ExactString() == "0" {
+									var bits int64
+									fmt.Sscan(strings.TrimPrefix(sel.Sel.Name, "AppendUint"), &bits)
+									if bits > 0 {
+										lens[bits/8] = true
+										continue
+									}
+								}
+							}
+						}
 						ok = false
 					case *ast.CompositeLit:
 						lens[int64(len(z.Elts))] = true
